@@ -1126,9 +1126,39 @@ class WasmToIrCompiler:
             b = self.emit(ir.Cast(b, "cast", u_ir_typ))
             value = self.emit(ir.Binop(a, op, b, name, u_ir_typ))
             value = self.emit(ir.Cast(value, "cast", ir_typ))
+        elif opname == "rem_s":
+            value = self.gen_rem_s(a, b, ir_typ)
         else:
             value = self.emit(ir.Binop(a, op, b, name, ir_typ))
         self.push_value(value)
+
+    def gen_rem_s(self, a, b, ir_typ):
+        """Generate code for signed remainder.
+
+        The remainder of the smallest integer and -1 is 0, but the
+        division overflows (x86 raises a divide error). So select 0
+        when dividing by -1.
+        """
+        minus_one = self.emit(ir.Const(-1, "minus_one", ir_typ))
+        zero_block = self.builder.new_block()
+        rem_block = self.builder.new_block()
+        final_block = self.builder.new_block()
+        self.emit(ir.CJump(b, "==", minus_one, zero_block, rem_block))
+
+        self.builder.set_block(zero_block)
+        zero = self.emit(ir.Const(0, "zero", ir_typ))
+        self.emit(ir.Jump(final_block))
+
+        self.builder.set_block(rem_block)
+        value = self.emit(ir.Binop(a, "%", b, "op_rem_s", ir_typ))
+        self.emit(ir.Jump(final_block))
+
+        self.builder.set_block(final_block)
+        phi = ir.Phi("rem_s", ir_typ)
+        phi.set_incoming(zero_block, zero)
+        phi.set_incoming(rem_block, value)
+        self.emit(phi)
+        return phi
 
     def gen_cmpop(self, instruction):
         """Generate code for a comparison operation"""
